@@ -114,6 +114,8 @@ class Concretiser:
         self.nsrel = None
         self._keys = {}
         self._long_used = False
+        self._nsn = None
+        self.ns_style = False
         self.exotic_keys = True
 
     def _id(self):
@@ -169,6 +171,18 @@ class Concretiser:
                 raw += bytes(rng.getrandbits(8) for _ in range(rng.randint(1, 40)))
             s = base64.b64encode(raw).decode()
             node, tok = ('str', s), s
+        elif cls in ("nsname", "nseq", "nsprefix", "nsother", "nsother2", "nsotherdb") and self.ns_style:
+            d, c_, od, oc = self.ns_names()
+            key = path[-1] if path else ""
+            if cls == "nsname":
+                s = d if key in ("$db", "db") else c_
+            elif cls == "nsother2":
+                s = oc
+            elif cls == "nsotherdb":
+                s = od
+            else:
+                s = d + "." + c_
+            node, tok = ('str', s), s
         elif cls == "nsname":
             # verb value / $db / collection: by key position (set by caller through path)
             key = path[-1] if path else ""
@@ -207,6 +221,19 @@ class Concretiser:
         if k not in self._keys:
             self._keys[k] = self.rng.choice(KEY_STYLES) % k
         return self._keys[k]
+
+    def ns_names(self):
+        """Per-line planted names (C12): database, collection, a second database and collection; shapes by variant."""
+        if self._nsn is None:
+            i, v, rng = self.idx, self.variant, self.rng
+            shapes = ["Clq%dz", "Clq%dz.part%dx", "system.Clq%dz", "Clq%dz-é漢", "Clq%dz.a.b", "Clq%dz_$x"]
+            sh = shapes[0] if v == 0 else rng.choice(shapes)
+            coll = sh % ((i,) * sh.count("%d"))
+            if v > 0 and rng.random() < 0.15:
+                coll = "$cmd"
+            osh = "Otq%dz" if v == 0 else rng.choice(["Otq%dz", "Otq%dz.sub%dq", "system.buckets.Otq%dz"])
+            self._nsn = ("Dbq%dz" % i, coll, "Odq%dz" % i, osh % ((i,) * osh.count("%d")))
+        return self._nsn
 
     def ns_parts(self):
         rel = self.nsrel or self._nsrel_hint
@@ -490,6 +517,7 @@ def process_chunk(args):
             for v in range(nvar):
                 gid = (chunk_no * len(recs) + i) * nvar + v if False else len(cases)
                 c = Concretiser(seed, chunk_no * 100000 + i, v, keymap=keymap, styles=opts.get("styles"))
+                c.ns_style = bool(opts.get("ns_style"))
                 tree = c.line(rec["in"], gid)
                 cases.append((rec, v, tree, c.leaves, jsonx.dumps(tree)))
         lines = [c[4] for c in cases]
@@ -538,6 +566,7 @@ def process_chunk(args):
         import shutil
         shutil.rmtree(workdir, ignore_errors=True)
     res["nontrivial"] = list(res["nontrivial"])
+    res["extra"] = {k: n for k, n in res["extra"].items() if isinstance(n, int)}
     return res
 
 
@@ -545,9 +574,9 @@ def process_chunk(args):
 class Replay:
     """Streams TLC records into a process pool; merges what the workers report into a common.Verdict."""
 
-    def __init__(self, build, verdict, cfgs, judge_name, variants=1, chunk=1500, keymap=None, styles=None, drift=True, worker=None):
+    def __init__(self, build, verdict, cfgs, judge_name, variants=1, chunk=1500, keymap=None, styles=None, drift=True, worker=None, ns_style=False):
         self.b, self.v, self.cfgs = build, verdict, cfgs
-        self.opts = {"seed": verdict.seed, "variants": variants, "keymap": keymap, "styles": styles, "drift": drift}
+        self.opts = {"seed": verdict.seed, "variants": variants, "keymap": keymap, "styles": styles, "drift": drift, "ns_style": ns_style}
         self.pool = multiprocessing.get_context("fork").Pool(
             common.NCPU, initializer=_worker_init,
             initargs=({"cli": build.cli, "root": build.root}, cfgs, judge_name, self.opts))
@@ -601,7 +630,8 @@ class Replay:
             self.stray += r["stray"]
             self.stray_samples += r["stray_samples"][:2]
             for k, n in r["extra"].items():
-                self.extra[k] = self.extra.get(k, 0) + n
+                if isinstance(n, int):
+                    self.extra[k] = self.extra.get(k, 0) + n
         self.pending = []
         self.pool.close()
         self.pool.join()
